@@ -106,6 +106,15 @@ FUNCS = ["dreye.api.optimize.lsq_linear." + n for n in ("lsq_linear", "_prepare_
     "dreye.api.utils.predict_values", "dreye.api.utils.transform_values", "dreye.api.utils.apply_linear_transform"]
 
 CONTRACTS = [
-    Contract(P, "lsq_linear.gaussian", gaussian_fit, _cfgs, FUNCS, gens=GENS, native_samples=2, rtol=1e-5, atol=1e-6, doc=gaussian_fit.__doc__),
+    Contract(P, "lsq_linear.gaussian", gaussian_fit, _cfgs, FUNCS, gens=GENS, native_samples=2, rtol=1e-5, atol=1e-6, doc=gaussian_fit.__doc__,
+             # found by the thorough native oracle: the default solver stopped at its iteration limit (status `user_limit`) on the first
+             # batch and the iterate was accepted (row 1 error 25.09 instead of the optimum 24.07); repaired, kept as a regression input
+             pinned=[(dict(lb="pos", ub="fin", W="receptor", K="vector", baseline="vector", nf=3, ns=2, m=3, bs=2, pinned="solver-user-limit"),
+                      {"A": [[1.4554425309821815, 0.9046800706458055], [0.5614602859042921, 0.5247914532927936], [1.7199053588004087, 1.8691333659165825]],
+                       "B": [[3.246450430370259, 4.106475926887989, 2.80537494025796], [5.5455069665143775, 4.710974878850725, -0.9808304988089633],
+                             [5.001829936112985, -0.7649009728617495, 4.107588125009609]],
+                       "lb": [0.0702622482410236, 0.34527156893995464], "ub": [3.3121918303736377, 2.9495678358060773],
+                       "W": [1.1340308317964878, 0.5424795067181944, 0.686424914749346], "K": [1.5059366220404455, 1.4707842673613751, 1.4230776672218808],
+                       "baseline": [1.075516331392825, 1.9958149036838164, 1.9712530081643451]})]),
     Contract(P, "estimator.fit-dispatch", estimator_fit, lambda t: [{"nf": 2, "ns": 3, "m": 2, "bs": 1}, {"nf": 3, "ns": 2, "m": 1, "bs": 2}], ["dreye.api.estimator.ReceptorEstimator.fit"], native_samples=0, doc=estimator_fit.__doc__),
 ]
